@@ -10,7 +10,8 @@ LEVEL = "exploration"
 RULE = ("deterministic un-averaged problems: random runs with a heavy share of convex-constrained problems (trust-region-increase "
         "exits), tiny budgets, runs started exactly at a minimiser (no run ever improves), growing with several new directions "
         "per iteration, and per reference run the exit-index enumeration (run ended at every evaluation that sets a new minimum) and "
-        "budget-index enumeration. Oracle: soln.obj <= every recomputed objective sum(r^2)+h(x) of the history; soln.obj <= f(first "
+        "budget-index enumeration, and the failpoint enumeration (LinAlgError injected in the Lagrange solve, 'model increases' verdict "
+        "injected in the acceptance test, at calls spread over a reference run). Oracle: soln.obj <= every recomputed objective sum(r^2)+h(x) of the history; soln.obj <= f(first "
         "call); final obj <= every run's returned obj; at every iteration min(incumbent, saved slot) <= best recorded so far. "
         "Non-trivial = run that ended at an exit site reached while holding a just-evaluated point not yet installed in the model "
         "(the only moment a point can be lost); distinct by (exit site, configuration hash)")
@@ -22,6 +23,7 @@ NPROJ = {"quick": 160, "thorough": 3000}
 NMIN = {"quick": 150, "thorough": 3000}
 NGROW = {"quick": 150, "thorough": 3000}
 NREGSC = {"quick": 90, "thorough": 1500}
+NFAILPT = {"quick": 50, "thorough": 900}
 CASE_TIMEOUT = {"quick": 300, "thorough": 900}
 NSAMPLES = 5
 ABANDON_MSGS = ("MAXFUN", "sufficiently small", "model increase", "multiple constraints", "NaN received")
@@ -30,7 +32,8 @@ ABANDON_MSGS = ("MAXFUN", "sufficiently small", "model increase", "multiple cons
 def cases(tier, seed):
     out = []
     i = 0
-    for t, n in (("enum", NENUM[tier]), ("proj", NPROJ[tier]), ("rand", NRAND[tier]), ("atmin", NMIN[tier]), ("grow", NGROW[tier]), ("regscaled", NREGSC[tier])):
+    for t, n in (("enum", NENUM[tier]), ("proj", NPROJ[tier]), ("rand", NRAND[tier]), ("atmin", NMIN[tier]), ("grow", NGROW[tier]), ("regscaled", NREGSC[tier]),
+                 ("failpt", NFAILPT[tier])):
         for _ in range(n):
             out.append(dict(i=i, seed=seed, type=t))
             i += 1
@@ -40,6 +43,7 @@ def cases(tier, seed):
 def setup():
     engine.install_core_monitors()
     engine.install_log_tap()
+    engine.install_failpoints()
 
 
 def make_cfg(seed, i, typ):
@@ -73,6 +77,13 @@ def make_cfg(seed, i, typ):
             x0 = np.array(cfg["x0"])
             cfg["lower"] = (x0 - 0.5 - r()).tolist()
             cfg["upper"] = (x0 + 0.5 + r()).tolist()
+    elif typ == "failpt":
+        # reference run for the failpoint enumeration (LinAlgError in a Lagrange solve / 'model increases' verdict in the
+        # acceptance test, at calls spread over the run): restart-heavy, growing and regression variants, bounds
+        cfg = campaign.gen_cfg(rng, deterministic=True, restarts_p=0.85, term_p=0.0, reg_p=0.08, proj_p=0.0, maxfuns=(30, 50, 80), nmax=3,
+                               npt_p=0.5, allow=("restarts", "regression", "growing"))
+        if cfg.get("reg"):
+            cfg["args"]["maxfun"] = min(cfg["args"]["maxfun"], 25)
     elif typ == "atmin":
         # x0 exactly at a minimiser with non-zero residual: no run ever makes strict progress
         n = int(rng.integers(1, 4))
@@ -199,9 +210,7 @@ def one_run(cfg, res, tag):
     HSLACK[0] = h_slack_for(cfg)
     state = dict(viol=[], st=st, ctx=ctx, h=h, best=np.inf, best_k=None, done=0)
     ctx.iter_hook = make_hook(state)
-    run = engine.run_solve(built.objfun, built.x0.copy(), ctx=ctx, timeout=(150 if cfg.get("proj") else 60), faults=built.faults,
-                           persistent=built.persistent, solve_kwargs=built.kw)
-    run.built, run.cfg = built, cfg
+    run = gen.run_cfg(cfg, ctx, timeout=(150 if cfg.get("proj") else 60), built=built)
     oracles.common_stats(run, st)
     viol = state["viol"]
     s = run.soln
@@ -255,6 +264,12 @@ def run_case(case):
         h = ref.built.h_raw if ref.built.h is not None else None
         for c2 in campaign.exit_index_cfgs(cfg, ref, h=h, max_cases=20) + campaign.budget_index_cfgs(cfg, ref, max_cases=12):
             one_run(c2, res, "%s %s" % (c2["_derived"]["kind"], c2["_derived"].get("M", c2["_derived"].get("j"))))
+            nder += 1
+            k = "derived|" + c2["_derived"]["kind"]
+            res["stats"][k] = res["stats"].get(k, 0) + 1
+    if typ == "failpt" and ref.exc is None:
+        for c2 in campaign.failpoint_cfgs(cfg, ref, max_lagrange=7, max_ratio=7):
+            r2 = one_run(c2, res, "%s %d of %d" % (c2["_derived"]["kind"], c2["_derived"]["j"], c2["_derived"]["of"]))
             nder += 1
             k = "derived|" + c2["_derived"]["kind"]
             res["stats"][k] = res["stats"].get(k, 0) + 1
